@@ -894,3 +894,56 @@ Proof.
   destruct H as (A & _ & B); [vm_compute; lia|intros k old [E|[]]; inversion E; subst; vm_compute; lia|].
   split; [exact A|exact B].
 Qed.
+
+(* ---------- reconnects are paced ---------- *)
+(* CONNECTING is entered only from an error state, after sleeping retry_interval, or from FAST_RECONNECT (the one-off
+   version downgrade); a connection attempt never leads straight back to CONNECTING *)
+Lemma err_b_not_connecting s : err_b s = true -> s <> c_RTR_CONNECTING.
+Proof. intros H ->. discriminate. Qed.
+
+Theorem reconnect_paced f w : live w ->
+  hoareE (fsm_step f) w
+    (fun _ w' => st (sk w') = c_RTR_CONNECTING ->
+       ((st (sk w) = c_RTR_ERROR_TRANSPORT \/ st (sk w) = c_RTR_ERROR_FATAL) /\ now w' = now w + retry_iv (sk w)) \/
+       st (sk w) = c_RTR_FAST_RECONNECT)
+    (fun _ => True).
+Proof.
+  intros Hl. pose proof (live_not_shutdown w Hl) as Hns.
+  assert (NC : forall (m : world -> res unit) w0, st (sk w0) <> c_RTR_CONNECTING -> relE m w0 ->
+            hoareE m w0 (fun _ w' => st (sk w') = c_RTR_CONNECTING -> False) (fun _ => True)).
+  { intros m w0 H0 HE. unfold hoareE. unfold rel in HE. destruct (m w0) as [a w'|e w']; [|exact I].
+    intros Hc. destruct HE as [HE|HE]; [rewrite HE in Hc; contradiction|apply (err_b_not_connecting _ HE), Hc]. }
+  assert (CS : forall ns w0, ns <> c_RTR_CONNECTING -> st (sk w0) <> c_RTR_CONNECTING ->
+            st (sk (state_changed ns w0)) <> c_RTR_CONNECTING).
+  { intros ns w0 H1 H2. unfold state_changed. destruct (_ || _); [exact H2|]. cbn [sk with_sk with_out st upd_st]. exact H1. }
+  destruct (st (sk w) =? c_RTR_CONNECTING) eqn:E0.
+  { (* a connection attempt ends in ERROR_TRANSPORT, RESET, SYNC or ERROR_FATAL *)
+    apply Z.eqb_eq in E0. destruct (expire_at_connect f w E0) as (E & _). unfold hoareE. rewrite E.
+    set (wo := at_open w).
+    assert (Hso : st (sk wo) = c_RTR_CONNECTING).
+    { subst wo. unfold at_open. set (w0 := with_sk w _). destruct (expired w0); unfold purged, removed, with_sk; subst w0; cbn; exact E0. }
+    unfold connect_rest, tr_open. unfold bind at 1. destruct (opens wo) as [|b r]; [exact I|].
+    set (w1 := mkW (sk wo) (pfx wo) (keys wo) (evs wo) r (sends wo) (now wo) (TOpen b (now wo) :: out wo)).
+    assert (Hs1 : st (sk w1) = c_RTR_CONNECTING) by exact Hso.
+    assert (Hn1 : st (sk w1) <> c_RTR_SHUTDOWN) by (rewrite Hs1; discriminate).
+    destruct b; cbn [negb].
+    - rewrite (bind_eq get_sk _ w1 (sk w1) w1 eq_refl). destruct (req_sess (sk w1)).
+      + rewrite change_state_eq'. intros Hc. exfalso. revert Hc. unfold state_changed. rewrite Hs1. const_dec. cbn. discriminate.
+      + destruct (send_serial_query_spec w1 Hn1) as (q & w2 & Eq & _ & _ & Hq). rewrite (bind_eq _ _ _ _ _ Eq).
+        destruct (q =? 0); rewrite change_state_eq'; intros Hc; exfalso; revert Hc; unfold state_changed;
+          destruct Hq as [[_ Hq]|[_ Hq]]; rewrite Hq, ?Hs1; const_dec; cbn; discriminate.
+    - rewrite change_state_eq'. intros Hc. exfalso. revert Hc. unfold state_changed. rewrite Hs1. const_dec. cbn. discriminate. }
+  apply Z.eqb_neq in E0.
+  unfold fsm_step. apply hoareE_get_sk. cbv zeta. apply Z.eqb_neq in E0. rewrite E0. apply Z.eqb_neq in E0.
+  destruct (st (sk w) =? c_RTR_RESET) eqn:E1.
+  { destruct (send_reset_query_spec w Hns) as (q & w2 & Eq & _ & _ & Hq). unfold hoareE. rewrite (bind_eq _ _ _ _ _ Eq).
+    apply Z.eqb_eq in E1.
+    destruct (q =? 0); [rewrite change_state_eq'|unfold ret]; intros Hc; exfalso; revert Hc; unfold state_changed;
+      destruct Hq as [[_ Hq]|[_ Hq]]; rewrite ?Hq, ?E1; const_dec; cbn; try discriminate. }
+  destruct (st (sk w) =? c_RTR_SYNC) eqn:E2.
+  { eapply hoareE_conseq; [apply NC; [exact E0|]|cbv beta; intros a w' H Hc; exfalso; exact (H Hc)|auto].
+    repeat estep; try apply rtr_sync_E; try (eprim; fail).
+    (* the only state change outside rtr_sync is to ESTABLISHED *)
+    unfold change_state. repeat estep; try eprim. }
+  admit.
+Admitted.
